@@ -1,5 +1,5 @@
 (* Proofs about the container model Fix/Container.v (property C18). *)
-From Coq Require Import ZArith NArith List Bool Lia.
+From Coq Require Import ZArith NArith List Bool Lia ZifyBool.
 From AF Require Import Base.Sx Py.Str Fix.Container Fix.ContainerRun.
 From AFGen Require Import GenEnums.
 Import ListNotations.
@@ -651,3 +651,405 @@ Proof.
       apply HH in F'. pose proof (find_none _ _ F _ Hy). congruence.
   - intros e. destruct (find (holds (tag_str gt) gv) g); intros H; now inversion H.
 Qed.
+
+(* ================================================================ str(int) and int(str) *)
+
+Lemma n_to_dec_fuel_eq f n acc :
+  n_to_dec_fuel (S f) n acc =
+  let acc' := digit_char (n mod 10) :: acc in
+  if n / 10 =? 0 then acc' else n_to_dec_fuel f (n / 10) acc'.
+Proof. cbn [n_to_dec_fuel]. unfold N.div, N.modulo. now destruct (N.div_eucl n 10). Qed.
+
+(* digits, least significant first *)
+Fixpoint lsd (f : nat) (n : N) : list N :=
+  match f with
+  | O => []
+  | S f' => digit_char (n mod 10) :: (if n / 10 =? 0 then [] else lsd f' (n / 10))
+  end.
+
+Lemma n_to_dec_fuel_lsd f n acc : n_to_dec_fuel f n acc = rev (lsd f n) ++ acc.
+Proof.
+  revert n acc. induction f as [|f IH]; intros n acc; [reflexivity|].
+  rewrite n_to_dec_fuel_eq. cbn [lsd rev]. destruct (n / 10 =? 0).
+  - reflexivity.
+  - rewrite IH, <- app_assoc. reflexivity.
+Qed.
+
+Fixpoint lval (l : list N) : N :=
+  match l with [] => 0 | c :: l' => (c - 48) + 10 * lval l' end.
+
+Fixpoint p2 (k : nat) : N := match k with O => 1 | S k' => 2 * p2 k' end.
+
+Lemma size_nat_bound n : n < p2 (N.size_nat n).
+Proof.
+  destruct n as [|p]; [cbn; lia|]. cbn [N.size_nat].
+  induction p as [p IH|p IH|]; cbn [Pos.size_nat p2]; lia.
+Qed.
+
+Lemma lval_lsd f n : n < p2 f -> lval (lsd f n) = n.
+Proof.
+  revert n. induction f as [|f IH]; intros n H; cbn [p2] in H; [cbn; lia|].
+  cbn [lsd lval]. unfold digit_char. pose proof (N.div_mod n 10 ltac:(lia)) as D.
+  pose proof (N.mod_lt n 10 ltac:(lia)) as M.
+  destruct (n / 10 =? 0) eqn:E.
+  - apply N.eqb_eq in E. cbn [lval]. rewrite E in D. clear E. set (r := n mod 10) in *. clearbody r. lia.
+  - rewrite IH; [|apply N.div_lt_upper_bound; lia].
+    clear E IH. set (r := n mod 10) in *. set (q := n / 10) in *. clearbody q r. lia.
+Qed.
+
+Lemma lsd_digits f n : Forall (fun c => is_digit c = true) (lsd f n).
+Proof.
+  revert n. induction f as [|f IH]; intros n; cbn [lsd]; constructor.
+  - unfold is_digit, digit_char. pose proof (N.mod_lt n 10 ltac:(lia)) as M.
+    set (r := n mod 10) in *. clearbody r. lia.
+  - destruct (n / 10 =? 0); [constructor|apply IH].
+Qed.
+
+Lemma n_to_dec_lsd n : n_to_dec n = rev (lsd (S (N.size_nat n)) n).
+Proof. unfold n_to_dec. rewrite n_to_dec_fuel_lsd. apply app_nil_r. Qed.
+
+Lemma n_to_dec_inj n m : n_to_dec n = n_to_dec m -> n = m.
+Proof.
+  rewrite !n_to_dec_lsd. intros H. apply (f_equal (@rev N)) in H. rewrite !rev_involutive in H.
+  apply (f_equal lval) in H. rewrite !lval_lsd in H; [exact H| |];
+    (eapply N.lt_le_trans; [apply size_nat_bound|cbn [p2]; lia]).
+Qed.
+
+Lemma n_to_dec_digits n : Forall (fun c => is_digit c = true) (n_to_dec n).
+Proof. rewrite n_to_dec_lsd. apply Forall_rev. apply lsd_digits. Qed.
+
+Lemma n_to_dec_nonempty n : n_to_dec n <> [].
+Proof.
+  rewrite n_to_dec_lsd. cbn [lsd rev]. intros H. apply app_eq_nil in H. destruct H; discriminate.
+Qed.
+
+(* int(str(n)) = n, below CPython's digit limit *)
+Definition dstep (a c : N) : N := 10 * a + (c - 48).
+
+Lemma digits_us_digits s a :
+  Forall (fun c => is_digit c = true) s -> digits_us s a false = Some (fold_left dstep s a).
+Proof.
+  revert a. induction s as [|c s IH]; intros a F; [reflexivity|].
+  inversion F as [|? ? D F']; subst. cbn [digits_us fold_left]. rewrite D. now apply IH.
+Qed.
+
+Lemma fold_rev_lval l : fold_left dstep (rev l) 0 = lval l.
+Proof.
+  induction l as [|c l IH]; [reflexivity|].
+  cbn [rev lval]. rewrite fold_left_app. cbn [fold_left]. rewrite IH. unfold dstep. lia.
+Qed.
+
+Lemma digits_us_n_to_dec n : digits_us (n_to_dec n) 0 false = Some n.
+Proof.
+  rewrite digits_us_digits by apply n_to_dec_digits. rewrite n_to_dec_lsd, fold_rev_lval.
+  rewrite lval_lsd; [reflexivity|]. eapply N.lt_le_trans; [apply size_nat_bound|cbn [p2]; lia].
+Qed.
+
+Lemma lstrip_id ws s : match s with [] => True | c :: _ => ws c = false end -> lstrip ws s = s.
+Proof. destruct s as [|c s]; [reflexivity|]. cbn [lstrip]. now intros ->. Qed.
+
+Lemma strip_id ws s : Forall (fun c => ws c = false) s -> strip ws s = s.
+Proof.
+  intros F. unfold strip. rewrite (lstrip_id ws s).
+  - rewrite (lstrip_id ws (rev s)); [apply rev_involutive|].
+    apply Forall_rev in F. destruct (rev s); [exact I|]. now inversion F.
+  - destruct s; [exact I|]. now inversion F.
+Qed.
+
+Lemma digit_not_ws c : is_digit c = true -> ws_str c = false.
+Proof. unfold is_digit, ws_str. lia. Qed.
+
+Lemma digit_cases c : is_digit c = true ->
+  c = 48 \/ c = 49 \/ c = 50 \/ c = 51 \/ c = 52 \/ c = 53 \/ c = 54 \/ c = 55 \/ c = 56 \/ c = 57.
+Proof. unfold is_digit. lia. Qed.
+
+Lemma filter_length_le {A} (f : A -> bool) l : (length (filter f l) <= length l)%nat.
+Proof. induction l as [|x l IH]; cbn; [lia|]. destruct (f x); cbn; lia. Qed.
+
+Lemma py_int_digits s n :
+  Forall (fun c => is_digit c = true) s -> s <> [] -> (length s <= 4300)%nat ->
+  digits_us s 0 false = Some n ->
+  py_int s = Some (Z.of_N n) /\ py_int (45 :: s) = Some (- Z.of_N n)%Z.
+Proof.
+  intros F NE L D. unfold py_int, py_int_gen. cbv zeta.
+  assert (W : Forall (fun c => ws_str c = false) s).
+  { eapply Forall_impl; [|exact F]. intros c. apply digit_not_ws. }
+  assert (LIM : (4300 <? N.of_nat (length (filter is_digit s))) = false).
+  { pose proof (filter_length_le is_digit s). lia. }
+  destruct s as [|c s']; [contradiction|]. inversion F as [|? ? Dc F']; subst.
+  split.
+  - rewrite strip_id by exact W.
+    destruct (digit_cases c Dc) as [->|[->|[->|[->|[->|[->|[->|[->|[->| ->]]]]]]]]];
+      cbv iota beta; rewrite LIM, Dc, D; reflexivity.
+  - rewrite strip_id by (constructor; [reflexivity|exact W]).
+    cbv iota beta. rewrite LIM, Dc, D. reflexivity.
+Qed.
+
+Lemma py_int_z_to_dec z : (length (z_to_dec z) <= 4300)%nat -> py_int (z_to_dec z) = Some z.
+Proof.
+  destruct z as [|p|p]; cbn [z_to_dec length]; intros L.
+  - reflexivity.
+  - apply (py_int_digits (n_to_dec (Npos p)) (Npos p)); [apply n_to_dec_digits|apply n_to_dec_nonempty|exact L|].
+    apply digits_us_n_to_dec.
+  - apply (py_int_digits (n_to_dec (Npos p)) (Npos p)); [apply n_to_dec_digits|apply n_to_dec_nonempty|lia|].
+    apply digits_us_n_to_dec.
+Qed.
+
+(* every int tag (below the digit limit) is accepted, and different ints are different keys *)
+Lemma int_tag_ok z : (length (z_to_dec z) <= 4300)%nat -> tag_ok (TInt z) = true.
+Proof. intros L. unfold tag_ok, key_ok. cbn [tag_str]. now rewrite py_int_z_to_dec. Qed.
+
+Lemma z_to_dec_inj a b : z_to_dec a = z_to_dec b -> a = b.
+Proof.
+  assert (H45 : forall n, ~ In 45 (n_to_dec n)).
+  { intros n H. pose proof (n_to_dec_digits n) as F. rewrite Forall_forall in F. specialize (F _ H). discriminate. }
+  assert (HD : forall n, exists c r, n_to_dec n = c :: r /\ is_digit c = true).
+  { intros n. pose proof (n_to_dec_digits n) as F. pose proof (n_to_dec_nonempty n) as NE.
+    destruct (n_to_dec n) as [|c r]; [contradiction|]. inversion F; subst. now exists c, r. }
+  destruct a as [|p|p], b as [|q|q]; cbn [z_to_dec]; intros H; try reflexivity.
+  - change [48] with (n_to_dec 0) in H. apply n_to_dec_inj in H. discriminate.
+  - destruct (HD (Npos q)) as (c & r & E & D). rewrite E in H; inversion H; subst; discriminate.
+  - change [48] with (n_to_dec 0) in H. apply n_to_dec_inj in H. discriminate.
+  - apply n_to_dec_inj in H. now inversion H.
+  - destruct (HD (Npos p)) as (c & r & E & D). rewrite E in H; inversion H; subst; discriminate.
+  - destruct (HD (Npos p)) as (c & r & E & D). rewrite E in H; inversion H; subst; discriminate.
+  - destruct (HD (Npos q)) as (c & r & E & D). rewrite E in H; inversion H; subst; discriminate.
+  - inversion H as [H']. apply n_to_dec_inj in H'. now inversion H'.
+Qed.
+
+(* ================================================================ induction on nested containers *)
+
+Section ContainerInd.
+  Context (P : container -> Prop) (Q : value -> Prop).
+  Context (HC : forall m l, Forall (fun kv => Q (snd kv)) l -> P (C m l)).
+  Context (HS : forall s, Q (VStr s)).
+  Context (HG : forall g, Forall P g -> Q (VGrp g)).
+  Context (HK : forall k x, Q (VCls k x)).
+
+  Fixpoint container_ind2 (c : container) : P c :=
+    match c with
+    | C m l =>
+        HC m l ((fix go (l : list (str * value)) : Forall (fun kv => Q (snd kv)) l :=
+                   match l with
+                   | [] => Forall_nil _
+                   | kv :: l' => Forall_cons kv (value_ind2 (snd kv)) (go l')
+                   end) l)
+    end
+  with value_ind2 (v : value) : Q v :=
+    match v with
+    | VStr s => HS s
+    | VGrp g =>
+        HG g ((fix go (g : list container) : Forall P g :=
+                 match g with
+                 | [] => Forall_nil _
+                 | c :: g' => Forall_cons c (container_ind2 c) (go g')
+                 end) g)
+    | VCls k x => HK k x
+    end.
+End ContainerInd.
+
+(* ================================================================ rendering *)
+
+Definition field (kv : str * value) : str := fst kv ++ 61 :: render_v (snd kv).
+
+Lemma render_C m l : render (C m l) = join [124] (map field l).
+Proof. reflexivity. Qed.
+
+Lemma render_items c : render c = join [124] (map field (items c)).
+Proof. now destruct c. Qed.
+
+Lemma render_v_grp g :
+  render_v (VGrp g) = n_to_dec (N.of_nat (length g)) ++ [61; 62; 91] ++ join [44; 32] (map repr g) ++ [93].
+Proof. reflexivity. Qed.
+
+Definition jtail (sep : str) (ps : list str) : str :=
+  match ps with [] => [] | _ => sep ++ join sep ps end.
+
+Lemma join_cons sep p ps : join sep (p :: ps) = p ++ jtail sep ps.
+Proof. destruct ps; cbn [join jtail]; [now rewrite app_nil_r|reflexivity]. Qed.
+
+(* ================================================================ equality by text: when it is equality of content *)
+
+(* the characters the rendering uses as punctuation *)
+Definition delim (c : N) : bool :=
+  (c =? 124) || (c =? 61) || (c =? 62) || (c =? 91) || (c =? 93) || (c =? 44) || (c =? 32).
+Definition clean_str (s : str) : bool := forallb (fun c => negb (delim c)) s.
+(* a key: no punctuation, not empty, not beginning like "msg_type=" *)
+Definition clean_tag (s : str) : bool :=
+  clean_str s && match s with c :: _ => negb (c =? 109) | [] => false end.
+
+Fixpoint cleanb (c : container) : bool :=
+  match c with
+  | C m l => match m with Some s => clean_str s | None => true end
+             && forallb (fun kv => clean_tag (fst kv) && cleanb_v (snd kv)) l
+  end
+with cleanb_v (v : value) : bool :=
+  match v with
+  | VStr s => clean_str s
+  | VGrp g => forallb cleanb g
+  | VCls _ _ => false
+  end.
+
+Definition clean_items (l : list (str * value)) : bool :=
+  forallb (fun kv => clean_tag (fst kv) && cleanb_v (snd kv)) l.
+(* the msg_type of the outermost container plays no part in __eq__ *)
+Definition clean (c : container) : bool := clean_items (items c).
+
+Definition lead (r : str) : Prop := match r with [] => True | c :: _ => delim c = true end.
+Definition term (r : str) : Prop := match r with [] => True | c :: _ => c = 44 \/ c = 93 end.
+Definition vterm (r : str) : Prop := match r with [] => True | c :: _ => c = 124 \/ c = 44 \/ c = 93 end.
+
+Lemma term_vterm r : term r -> vterm r.
+Proof. destruct r; cbn; [auto|]. intros [H|H]; auto. Qed.
+Lemma vterm_lead r : vterm r -> lead r.
+Proof. destruct r; cbn; [auto|]. intros [H|[H|H]]; subst; reflexivity. Qed.
+
+Lemma split_clean s1 s2 x y :
+  clean_str s1 = true -> clean_str s2 = true -> lead x -> lead y ->
+  s1 ++ x = s2 ++ y -> s1 = s2 /\ x = y.
+Proof.
+  revert s2. induction s1 as [|a s1 IH]; intros [|b s2] C1 C2 Lx Ly H; cbn [app] in H.
+  - now split.
+  - exfalso. subst x. cbn in Lx, C2. apply andb_true_iff in C2. destruct C2 as [C2 _]. rewrite Lx in C2. discriminate.
+  - exfalso. subst y. cbn in Ly, C1. apply andb_true_iff in C1. destruct C1 as [C1 _]. rewrite Ly in C1. discriminate.
+  - inversion H; subst. cbn in C1, C2. apply andb_true_iff in C1, C2.
+    destruct (IH s2 (proj2 C1) (proj2 C2) Lx Ly H2) as [-> ->]. now split.
+Qed.
+
+Lemma digits_clean s : Forall (fun c => is_digit c = true) s -> clean_str s = true.
+Proof.
+  intros F. unfold clean_str. apply forallb_forall. intros c Hc. rewrite Forall_forall in F.
+  specialize (F c Hc). unfold is_digit, delim in *. lia.
+Qed.
+
+Lemma clean_tag_head t : clean_tag t = true ->
+  exists c t', t = c :: t' /\ delim c = false /\ c <> 109 /\ clean_str t = true.
+Proof.
+  unfold clean_tag. intros H. apply andb_true_iff in H. destruct H as [H1 H2].
+  destruct t as [|c t']; [discriminate|]. exists c, t'. repeat split; [|lia|exact H1].
+  cbn in H1. apply andb_true_iff in H1. destruct H1 as [H1 _]. now apply negb_true_iff in H1.
+Qed.
+
+Section RenderInj.
+  Let P (c1 : container) : Prop :=
+    forall c2 r1 r2, cleanb c1 = true -> cleanb c2 = true -> term r1 -> term r2 ->
+                     repr c1 ++ r1 = repr c2 ++ r2 -> c1 = c2 /\ r1 = r2.
+  Let Q (v1 : value) : Prop :=
+    forall v2 r1 r2, cleanb_v v1 = true -> cleanb_v v2 = true -> vterm r1 -> vterm r2 ->
+                     render_v v1 ++ r1 = render_v v2 ++ r2 -> v1 = v2 /\ r1 = r2.
+
+  Lemma items_inj l1 :
+    Forall (fun kv => Q (snd kv)) l1 ->
+    forall l2 r1 r2, clean_items l1 = true -> clean_items l2 = true -> term r1 -> term r2 ->
+      join [124] (map field l1) ++ r1 = join [124] (map field l2) ++ r2 -> l1 = l2 /\ r1 = r2.
+  Proof.
+    assert (NIL : forall t v l r r', clean_items ((t, v) :: l) = true -> term r ->
+                    r = join [124] (map field ((t, v) :: l)) ++ r' -> False).
+    { intros t v l r r' Cl T E. cbn [clean_items forallb fst] in Cl.
+      apply andb_true_iff in Cl. destruct Cl as [Cl _]. apply andb_true_iff in Cl. destruct Cl as [Ct _].
+      destruct (clean_tag_head _ Ct) as (c & t' & -> & D & _ & _).
+      cbn [map] in E. rewrite join_cons in E. unfold field in E. cbn [fst app] in E. subst r. cbn in T.
+      unfold delim in D. lia. }
+    intros F. induction F as [|[t1 v1] l1 Hv F IH]; intros [|[t2 v2] l2] r1 r2 C1 C2 T1 T2 H.
+    - cbn in H. now split.
+    - exfalso. change (join [124] (map field [])) with (@nil N) in H. cbn [app] in H.
+      eapply NIL; [exact C2|exact T1|exact H].
+    - exfalso. change (join [124] (map field [])) with (@nil N) in H. cbn [app] in H. symmetry in H.
+      eapply NIL; [exact C1|exact T2|exact H].
+    - cbn [map] in H. rewrite !join_cons in H. unfold field in H at 1 3. cbn [fst snd] in H.
+      rewrite <- !app_assoc in H. cbn [app] in H.
+      cbn [clean_items forallb fst snd] in C1, C2. apply andb_true_iff in C1, C2.
+      destruct C1 as [C1 C1'], C2 as [C2 C2']. apply andb_true_iff in C1, C2.
+      destruct C1 as [Ct1 Cv1], C2 as [Ct2 Cv2].
+      destruct (clean_tag_head _ Ct1) as (_ & _ & _ & _ & _ & Cs1).
+      destruct (clean_tag_head _ Ct2) as (_ & _ & _ & _ & _ & Cs2).
+      apply split_clean in H; [|exact Cs1|exact Cs2|reflexivity|reflexivity].
+      destruct H as [-> H]. inversion H as [H']. clear H.
+      cbn [snd] in Hv. apply Hv in H'; [|exact Cv1|exact Cv2| |].
+      + destruct H' as [-> H'].
+        destruct l1 as [|kv1 l1], l2 as [|kv2 l2]; cbn [map jtail app] in H'.
+        * subst. now split.
+        * exfalso. subst r1. cbn in T1. lia.
+        * exfalso. subst r2. cbn in T2. lia.
+        * inversion H' as [H'']. apply (IH (kv2 :: l2)) in H''; [|exact C1'|exact C2'|exact T1|exact T2].
+          destruct H'' as [-> ->]. now split.
+      + destruct l1; cbn [map jtail app]; [now apply term_vterm|cbn; auto].
+      + destruct l2; cbn [map jtail app]; [now apply term_vterm|cbn; auto].
+  Qed.
+
+  Lemma group_inj g1 :
+    Forall P g1 ->
+    forall g2 r1 r2, length g1 = length g2 -> forallb cleanb g1 = true -> forallb cleanb g2 = true ->
+      join [44; 32] (map repr g1) ++ 93 :: r1 = join [44; 32] (map repr g2) ++ 93 :: r2 ->
+      g1 = g2 /\ r1 = r2.
+  Proof.
+    intros F. induction F as [|c1 g1 Hc F IH]; intros [|c2 g2] r1 r2 L C1 C2 H; try discriminate L.
+    - cbn in H. inversion H. now split.
+    - cbn [map] in H. rewrite !join_cons in H. rewrite <- !app_assoc in H.
+      cbn [forallb] in C1, C2. apply andb_true_iff in C1, C2. destruct C1 as [Cc1 C1], C2 as [Cc2 C2].
+      apply Hc in H; [|exact Cc1|exact Cc2| |].
+      + destruct H as [-> H]. cbn [length] in L. inversion L as [L'].
+        destruct g1 as [|d1 g1], g2 as [|d2 g2]; try discriminate L'; cbn [map jtail app] in H.
+        * inversion H. now split.
+        * inversion H as [H']. apply (IH (d2 :: g2)) in H'; [|exact L'|exact C1|exact C2].
+          destruct H' as [-> ->]. now split.
+      + destruct g1; cbn; auto.
+      + destruct g2; cbn; auto.
+  Qed.
+
+  Lemma case_C m1 l1 : Forall (fun kv => Q (snd kv)) l1 -> P (C m1 l1).
+  Proof.
+      intros F [m2 l2] r1 r2 C1 C2 T1 T2 H.
+      cbn [cleanb] in C1, C2. apply andb_true_iff in C1, C2. destruct C1 as [Cm1 C1], C2 as [Cm2 C2].
+      unfold repr in H. cbn [mt] in H. rewrite !render_C in H.
+      destruct m1 as [s1|], m2 as [s2|]; cbn [mt_prefix] in H.
+      + rewrite <- !app_assoc in H. apply app_inv_head in H. cbn [app] in H.
+        apply split_clean in H; [|exact Cm1|exact Cm2|reflexivity|reflexivity].
+        destruct H as [-> H]. inversion H as [H'].
+        destruct (items_inj l1 F l2 r1 r2 C1 C2 T1 T2 H') as [-> ->]. now split.
+      + exfalso. destruct l2 as [|[t v] l2].
+        * cbn in H. subst r2. cbn in T2. lia.
+        * cbn [clean_items forallb fst] in C2. apply andb_true_iff in C2. destruct C2 as [C2 _].
+          apply andb_true_iff in C2. destruct C2 as [Ct _].
+          destruct (clean_tag_head _ Ct) as (c & t' & -> & _ & N & _).
+          cbn [map] in H. rewrite join_cons in H. unfold field in H. cbn in H. inversion H. congruence.
+      + exfalso. destruct l1 as [|[t v] l1].
+        * cbn in H. subst r1. cbn in T1. lia.
+        * cbn [clean_items forallb fst] in C1. apply andb_true_iff in C1. destruct C1 as [C1 _].
+          apply andb_true_iff in C1. destruct C1 as [Ct _].
+          destruct (clean_tag_head _ Ct) as (c & t' & -> & _ & N & _).
+          cbn [map] in H. rewrite join_cons in H. unfold field in H. cbn in H. inversion H. congruence.
+      + cbn [app] in H. destruct (items_inj l1 F l2 r1 r2 C1 C2 T1 T2 H) as [-> ->]. now split.
+  Qed.
+
+  Lemma case_VStr s1 : Q (VStr s1).
+  Proof.
+      intros [s2|g2|k2 x2] r1 r2 C1 C2 T1 T2 H; cbn [cleanb_v] in C1, C2; try discriminate C2.
+      + cbn [render_v] in H. apply split_clean in H; auto using vterm_lead. destruct H as [-> ->]. now split.
+      + exfalso. rewrite render_v_grp in H. cbn [render_v] in H. rewrite <- !app_assoc in H. cbn [app] in H.
+        apply split_clean in H; [|exact C1|apply digits_clean, n_to_dec_digits|now apply vterm_lead|reflexivity].
+        destruct H as [_ H]. subst r1. cbn in T1. lia.
+  Qed.
+
+  Lemma case_VGrp g1 : Forall P g1 -> Q (VGrp g1).
+  Proof.
+      intros F [s2|g2|k2 x2] r1 r2 C1 C2 T1 T2 H; cbn [cleanb_v] in C1, C2; try discriminate C2.
+      + exfalso. rewrite render_v_grp in H. cbn [render_v] in H. rewrite <- !app_assoc in H. cbn [app] in H.
+        symmetry in H.
+        apply split_clean in H; [|exact C2|apply digits_clean, n_to_dec_digits|now apply vterm_lead|reflexivity].
+        destruct H as [_ H]. subst r2. cbn in T2. lia.
+      + rewrite !render_v_grp in H. rewrite <- !app_assoc in H. cbn [app] in H.
+        apply split_clean in H; [|apply digits_clean, n_to_dec_digits|apply digits_clean, n_to_dec_digits
+                                 |reflexivity|reflexivity].
+        destruct H as [HL H]. apply n_to_dec_inj in HL. apply Nat2N.inj in HL.
+        inversion H as [H']. destruct (group_inj g1 F g2 r1 r2 HL C1 C2 H') as [-> ->]. now split.
+  Qed.
+
+  Lemma case_VCls k x : Q (VCls k x).
+  Proof. intros v2 r1 r2 C1. discriminate C1. Qed.
+
+  Lemma container_inj c : P c.
+  Proof. exact (container_ind2 P Q case_C case_VStr case_VGrp case_VCls c). Qed.
+  Lemma value_inj v : Q v.
+  Proof. exact (value_ind2 P Q case_C case_VStr case_VGrp case_VCls v). Qed.
+End RenderInj.
